@@ -44,27 +44,35 @@ _B_LIVE = ("real MessageReceiver with one real Reader with entity id SPDP_BUILTI
            "registered; DATA (SN 1, no payload, no inline QoS) fed through the real handle_submessage -> handle_writer_submessage; Reader::handle_data_msg is a recorder under Kani (real natively); "
            "source prefix byte 0 any (not own)")
 
-# NOT READY: every c12_mr_liveness_* harness TIMES OUT (600 s quick / 240-300 s in single runs) as soon as a DATA
-# submessage enters the Writer arm of MessageReceiver::handle_submessage with a Reader registered, even with
-# Reader::handle_data_msg stubbed to a recorder and a payload-free DATA.  All are tier="thorough" so that a quick
-# run never waits for them; do not import into C12.py before the cause is found (see the report).
+# READY (tier="thorough" only until the lead promotes them; C12.py needs
+#   from mr_harnesses import MR_INJECT, MR_HARNESSES_C12
+#   "inject": dict(MR_INJECT, **{"src/discovery/discovery_db.rs": ["lease", "c11_db"]}),  "harnesses": [...] + MR_HARNESSES_C12
+# cap 2 is enough).  Measured one at a time (VERIF_JOBS=1) on the box while another 14-job run was using it:
+# 63-76 s verification time each (symex 45-56 s, solver < 5 s), 2.1-2.4 GB peak, 18865 checks, 2/2 covers.
+# History: every one of them used to time out (> 600 s) as soon as a DATA entered the Writer arm of
+# MessageReceiver::handle_submessage.  Cause: WriterSubmessage and SubmessageBody are both niche-encoded enums = C unions
+# for CBMC; the aggregate assignment Kani emits for `SubmessageBody::Writer(ws)` makes every field of the inner value
+# (discriminant, reader/writer ids) non-constant for symbolic execution, which then explores all arms of every match on the
+# submessage (real Reader heartbeat/gap/datafrag handlers, five-variant clone/drop glue) and unrolls the target-reader loop to
+# the unwind bound.  harness/mr.rs::writer_body builds the same value by a checked re-interpretation under Kani (doc there).
 MR_HARNESSES_C12 = [
     H("c12_mr_liveness_unknown_reader", _mr,
       "a DATA from SPDP_BUILTIN_PARTICIPANT_WRITER with readerId ENTITYID_UNKNOWN (what the spec's stateless SPDP writer sends) produces exactly one "
-      "signal on the SPDP liveness channel carrying the SOURCE prefix; nothing on the acknack channel", _B_LIVE, tier="thorough", timeout=2400),
-    H("c12_mr_liveness_explicit_reader", _mr, "same with readerId = SPDP_BUILTIN_PARTICIPANT_READER", _B_LIVE, tier="thorough", timeout=2400),
+      "signal on the SPDP liveness channel carrying the SOURCE prefix; nothing on the acknack channel; the DATA is handed to the SPDP reader exactly once",
+      _B_LIVE, tier="thorough", timeout=600),
+    H("c12_mr_liveness_explicit_reader", _mr, "same with readerId = SPDP_BUILTIN_PARTICIPANT_READER", _B_LIVE, tier="thorough", timeout=600),
     H("c12_mr_liveness_duplicate_unknown_reader", _mr,
       "the same DATA twice (same SN: a duplicate for the Reader): two signals, both with the source prefix — a repeated SPDP DATA is still a sign of life",
-      _B_LIVE + "; two handler invocations, all concrete but the source", tier="thorough", timeout=2400),
+      _B_LIVE + "; two handler invocations, all concrete but the source", tier="thorough", timeout=600),
     H("c12_mr_liveness_other_writer_explicit", _mr,
-      "a DATA from another builtin writer (SEDP publications writer) addressed to the SPDP reader produces NO liveness signal", _B_LIVE, tier="thorough", timeout=2400),
+      "a DATA from another builtin writer (SEDP publications writer) addressed to the SPDP reader produces NO liveness signal", _B_LIVE, tier="thorough", timeout=600),
     H("c12_mr_liveness_other_writer_unknown", _mr,
-      "a DATA from P2P_BUILTIN_PARTICIPANT_MESSAGE_WRITER with readerId UNKNOWN produces NO liveness signal (and is delivered to no reader)", _B_LIVE, tier="thorough", timeout=2400),
+      "a DATA from P2P_BUILTIN_PARTICIPANT_MESSAGE_WRITER with readerId UNKNOWN produces NO liveness signal (and is delivered to no reader)", _B_LIVE, tier="thorough", timeout=600),
     H("c12_mr_liveness_after_info_src", _mr,
-      "INFO_SRC(p) before the SPDP DATA: the signal carries p (the source of the DATA), not the prefix of the RTPS header", _B_LIVE, tier="thorough", timeout=2400),
-    H("c12_mr_liveness_duplicate_explicit_reader", _mr, "duplicate DATA with explicit SPDP readerId: two signals", _B_LIVE, tier="thorough", timeout=1800),
+      "INFO_SRC(p) before the SPDP DATA: the signal carries p (the source of the DATA), not the prefix of the RTPS header", _B_LIVE, tier="thorough", timeout=600),
+    H("c12_mr_liveness_duplicate_explicit_reader", _mr, "duplicate DATA with explicit SPDP readerId: two signals", _B_LIVE, tier="thorough", timeout=600),
     H("c12_mr_liveness_menu", _mr, "the four single-DATA cases as ONE query with a symbolic choice (real match, concrete arms)", _B_LIVE,
-      tier="thorough", timeout=2400),
+      tier="thorough", timeout=600),
 ]
 
 MR_ASSUMPTIONS = ENV_STUBS + [
@@ -79,6 +87,9 @@ MR_ASSUMPTIONS = ENV_STUBS + [
     "channel-full / disconnected outcomes are therefore not explored. Natively the real channels are used and read back with try_recv",
     "stubs of the Reader rig (reader.rs): Reader::encode_and_send / send_status_change / send_participant_status / notify_cache_change -> recorders; "
     "Vec::push / vec![x;n] -> same semantics with concrete allocation sizes",
+    "under Kani the SubmessageBody of a writer submessage (DATA, HEARTBEAT) is built by harness/mr.rs::writer_body: the bytes of the WriterSubmessage re-interpreted as "
+    "SubmessageBody (both are niche-encoded on the same word, same size - asserted) and then checked by assertions to be SubmessageBody::Writer of the same variant with the "
+    "same field values; the plain constructor makes a concrete DATA look symbolic to CBMC (union field sensitivity). Natively the plain constructor is used",
     "submessages are handed to the real MessageReceiver::handle_submessage as parsed structs after doing what handle_parsed_message does before its loop "
     "(reset(); dest = own prefix; source = header prefix); the Vec<Submessage> loop of handle_parsed_message itself is not executed "
     "(a Submessage read back from a heap Vec loses constness for CBMC: field-sensitivity limit)",
